@@ -49,11 +49,20 @@ def one(src):
 
 
 def drive(task):
+    if task["kind"] == "sched_replay":
+        from .. import schedule_replay
+        yield from schedule_replay.drive_file(task["path"], task["lo"], task["hi"], task.get("stride", 1))
+        return
     for src in gen.dfa_srcs(task):
         yield from one(src)
 
 
-redrive = one
+def redrive(src):
+    if src["kind"] == "gen_line":
+        from .. import schedule_replay
+        yield from schedule_replay.replay_line(src["line"])
+        return
+    yield from one(src)
 
 
 def _nerode_blocks(fa):
@@ -102,11 +111,41 @@ RULE = ("every DFA of DFA(3,{a,b}) and DFA(2,{a,b}) (exhaustive; DFA(4,{a,b}) st
 def nontrivial(e):
     if e["op"] == "hop_trace":
         return len(e["pops"]) >= 3
+    if e["op"] == "sched_replay":
+        return True
     return "res" in e and len(e["res"]["Q"]) < len(e["fa"]["Q"])
 
 
+def schedules(res, done):
+    """how many different splitter schedules of dfa_hopfcroft were observed (hash seeds x naming schemes)"""
+    import json
+    per = {}
+    for _, path, _ in done:
+        with open(path) as f:
+            for ln in f:
+                if '"hop_trace"' not in ln:
+                    continue
+                e = json.loads(ln)
+                key = json.dumps(e["fa"], sort_keys=True)
+                per.setdefault(key, set()).add(json.dumps(e["pops"]))
+    multi = sum(1 for v in per.values() if len(v) > 1)
+    res.notes["hopcroft_schedules_observed"] = {"dfas": len(per), "distinct_schedules": sum(len(v) for v in per.values()),
+                                                "dfas_seen_under_more_than_one_schedule": multi,
+                                                "all_schedules_in_model": "every behaviour of Hopcroft.tla (\\E wa \\in W) is "
+                                                "checked by TLC; each observed schedule is validated as one of them (hop_trace)"}
+
+
 def check(tier, seed):
-    return base.standard_check(PID, tier, seed, tasks(tier, seed), MODELS[tier], RULE, nontrivial, matchers=MATCHERS,
+    from .. import schedule_replay
+    info = {}
+    ts = tasks(tier, seed) + schedule_replay.gen_tasks(PID, "hop", tier, info)
+
+    def extra(res, done):
+        schedules(res, done)
+        res.notes["model_schedules_forced_onto_impl"] = info
+
+    return base.standard_check(PID, tier, seed, ts, MODELS[tier], RULE, nontrivial, matchers=MATCHERS,
+                               extra=extra,
                                assumptions=["<= 7 states", "state names without '{', '}' or ','"])
 
 
